@@ -901,6 +901,12 @@ func (ch c16) Run(c *core.Ctx) {
 		}
 		ch.sessionContextEnds(c, v)
 	}
+	for v := 0; v < 2; v++ {
+		if !c.Begin(70060+v) || c.NViol() >= 10 {
+			continue
+		}
+		ch.shortTimeouts(c, v)
+	}
 	for v := 0; v < 4; v++ {
 		if !c.Begin(70050+v) || c.NViol() >= 10 {
 			continue
@@ -1068,6 +1074,77 @@ func (ch c16) sessionContextEnds(c *core.Ctx, variant int) {
 		c.Violate("serve-hang", "Serve did not return after Close", "", cs)
 	}
 	c.Eval(fmt.Sprintf("session context ends %d", variant), true)
+}
+
+// shortTimeouts: a server on which every timeout this tree offers (exported duration fields of the Server,
+// none on the pinned tree) is set to 25 ms. A handler is still running when Close is called and keeps
+// running for several such periods: Close returns once the handler has finished - not before, and not never.
+func (ch c16) shortTimeouts(c *core.Ctx, variant int) {
+	cs := map[string]any{"short_timeouts_variant": variant}
+	e := &c16env{entered: make(chan string, 8), gateStmt: make(chan struct{}), gateParser: make(chan struct{})}
+	hs.ShortTimeouts = true
+	env := hs.Start(ch.parseFn(e))
+	hs.ShortTimeouts = false
+	cl := hs.NewClient(env.Dial(nil))
+	if err := cl.StartupOK("u"); err != nil {
+		c.Violate("startup", "startup failed", err.Error(), cs)
+		return
+	}
+	where := "stmt"
+	if variant == 1 {
+		where = "parser"
+		cl.C.Send(pg.Query("gateparser short timeouts"))
+	} else {
+		cl.C.Send(pg.Query("gatestmt short timeouts"))
+	}
+	select {
+	case got := <-e.entered:
+		if got != where {
+			c.Inconclusive("short-timeouts scenario: entered " + got + " instead of " + where)
+			return
+		}
+	case <-time.After(40 * time.Second):
+		c.Inconclusive("short-timeouts scenario: the handler was never entered")
+		return
+	}
+	closed := make(chan struct{})
+	go func() { env.Srv.Close(); e.closeReturned.Store(true); env.Srv.Close(); close(closed) }()
+	select {
+	case <-closed: // (a Close that does not wait is seen by the handler below)
+	case <-time.After(150 * time.Millisecond): // six of the short periods; detection power only
+	}
+	if where == "parser" {
+		close(e.gateParser)
+	} else {
+		close(e.gateStmt)
+	}
+	select {
+	case <-closed:
+		c.Count("close_with_short_timeouts_and_a_long_handler", 1)
+	case <-time.After(40 * time.Second):
+		dump, lib := core.ClassifyHang()
+		if len(lib) > 0 {
+			c.Violate("deadlock", "Close never returns on a server with short timeouts whose handler outlived them: "+strings.Join(lib, "; "), trim(dump, 3000), cs)
+		} else {
+			c.Inconclusive("Close watchdog fired (short timeouts) without a library-blocked goroutine")
+		}
+		c.Finish()
+		return
+	}
+	for i := 0; i < 200 && e.running.Load() > 0; i++ {
+		time.Sleep(time.Millisecond)
+	}
+	if v := e.viol.Load(); v != nil {
+		c.Violate("close-early", "Close returned before a handler that outlived the server's timeouts was finished", *v, cs)
+	}
+	cl.C.CloseWrite()
+	cl.C.WaitClosed()
+	select {
+	case <-env.ServeErr:
+	case <-time.After(40 * time.Second):
+		c.Violate("serve-hang", "Serve did not return after Close", "", cs)
+	}
+	c.Eval(fmt.Sprintf("short timeouts %d", variant), true)
 }
 
 func (ch c16) panicThenClose(c *core.Ctx, variant int) {
